@@ -15,7 +15,7 @@ tvars == <<pvars, l>>
 
 IsEvent(e) == l <= Len(Tr) /\ Tr[l].event = e /\ l' = l + 1
 
-TInit == /\ schema = [files |-> <<>>] /\ domain = TRUE /\ seen = <<>> /\ stripped = <<>> /\ runs = 0 /\ codecBase = <<>> /\ outNames = <<>> /\ l = 1
+TInit == /\ schema = [files |-> <<>>] /\ domain = TRUE /\ seen = <<>> /\ stripped = <<>> /\ runs = 0 /\ codecBase = <<>> /\ outNames = <<>> /\ accepted = {} /\ l = 1
          /\ TLCSet(1, 1)
 
 TSchema == IsEvent("Schema") /\ Load(Tr[l].schema, Tr[l].domain)
@@ -23,7 +23,10 @@ TSchema == IsEvent("Schema") /\ Load(Tr[l].schema, Tr[l].domain)
 Outcome(e) == [exit |-> e.exit, nfiles |-> e.nfiles, mentions |-> Range(e.mentions), files |-> Range(e.files), gen |-> Range(e.gen)]
 TGen == IsEvent("Gen") /\ Run(Tr[l].plugin, Tr[l].variant, Outcome(Tr[l]))
 
-TNext == TSchema \/ TGen
+TDecls == IsEvent("Decls") /\ NoDupDecls(Range(Tr[l].subset), Range(Tr[l].dups)) /\ Instrument
+TBuild == IsEvent("Build") /\ Builds(Tr[l].kind, Range(Tr[l].subset), Tr[l].ok, Tr[l].diag) /\ Instrument
+
+TNext == TSchema \/ TGen \/ TDecls \/ TBuild
 TSpec == TInit /\ [][TNext]_tvars
 
 HighWater == TLCSet(1, IF l > TLCGet(1) THEN l ELSE TLCGet(1))
